@@ -521,11 +521,12 @@ pub fn run_cli(out_path: &str, bin: &str, workdir: &str, tier: &str) {
 	if awslc {
 		algs.extend(["rsa", "ecdsa-p521"]);
 	}
-	let name_sets: Vec<(&str, &str)> = if tier == "quick" { vec![("cert", "root-ca")] } else { vec![("cert", "root-ca"), ("my.leaf", "my.ca")] };
+	// distinct names, and the pairs that coincide (both options equal; one option set to the other one's default)
+	let name_sets: Vec<(&str, &str)> = if tier == "quick" { vec![("cert", "root-ca"), ("same", "same"), ("root-ca", "root-ca")] } else { vec![("cert", "root-ca"), ("my.leaf", "my.ca"), ("same", "same"), ("root-ca", "root-ca"), ("cert", "cert")] };
 	let mut n = 0u64;
 	for alg in &algs {
 		for (ee, ca) in &name_sets {
-			let faults: Vec<String> = vec!["none".into(), format!("{}.key.pem", ee), format!("{}.pem", ee), format!("{}.key.pem", ca), format!("{}.pem", ca), "outdir".into()];
+			let faults: Vec<String> = if ee == ca { vec!["none".into()] } else { vec!["none".into(), format!("{}.key.pem", ee), format!("{}.pem", ee), format!("{}.key.pem", ca), format!("{}.pem", ca), "outdir".into()] };
 			for fault in &faults {
 				let root = std::path::Path::new(workdir).join(format!("clisec-{}-{}", out.be, n));
 				let _ = std::fs::remove_dir_all(&root);
@@ -570,6 +571,7 @@ pub fn run_cli(out_path: &str, bin: &str, workdir: &str, tier: &str) {
 					forms.push("pem-block");
 				}
 				let channel = match fault.as_str() {
+					"none" if ee == ca => "Cli(stdout and stderr of a run with coinciding base names)",
 					"none" => "Cli(stdout and stderr of a successful run)",
 					"outdir" => "Cli(stdout and stderr when the output directory cannot be created)",
 					f if f.ends_with(".key.pem") => "Cli(stdout and stderr when a key file cannot be created)",
@@ -595,7 +597,7 @@ pub fn run_cli(out_path: &str, bin: &str, workdir: &str, tier: &str) {
 						json!({"leaked": !forms.is_empty(), "forms": forms, "len": certs.len(), "exit": res.status.code().unwrap_or(-1), "keysSeen": keys_seen}));
 				}
 				// non-vacuity: the key files do contain what the search looks for
-				if fault == "none" {
+				if fault == "none" && ee != ca {
 					let mut keys: Vec<u8> = Vec::new();
 					for name in [ee, ca] {
 						keys.extend(std::fs::read(outdir.join(format!("{}.key.pem", name))).unwrap_or_default());
